@@ -264,6 +264,61 @@ func (c *trCtx) body(stmts []ast.Stmt, ret string, at ast.Node) string {
 		}
 		return fmt.Sprintf("if %s then %s\n  else %s", cond, thenS, elseS)
 	}
+	if sw, ok := stmts[0].(*ast.SwitchStmt); ok && sw.Init == nil {
+		// switch [tag] { case a, b: BODY ... default: BODY }; no fallthrough in the fragment:
+		// rewritten as the if/else-if chain it abbreviates (a body that does not return
+		// continues with the statements after the switch)
+		var chain ast.Stmt
+		var deflt []ast.Stmt
+		hasDefault := false
+		var clauses []*ast.CaseClause
+		for _, st := range sw.Body.List {
+			cc := st.(*ast.CaseClause)
+			for _, b := range cc.Body {
+				if br, ok := b.(*ast.BranchStmt); ok {
+					c.fail(br, "branch statement in switch")
+				}
+			}
+			if cc.List == nil {
+				hasDefault = true
+				deflt = cc.Body
+				continue
+			}
+			clauses = append(clauses, cc)
+		}
+		var tail []ast.Stmt
+		if hasDefault {
+			tail = append(append([]ast.Stmt{}, deflt...), stmts[1:]...)
+		} else {
+			tail = stmts[1:]
+		}
+		var prev *ast.IfStmt
+		for _, cc := range clauses {
+			var cond ast.Expr
+			for _, x := range cc.List {
+				var t ast.Expr = x
+				if sw.Tag != nil {
+					t = &ast.BinaryExpr{X: sw.Tag, Op: token.EQL, Y: x}
+				}
+				if cond == nil {
+					cond = t
+				} else {
+					cond = &ast.BinaryExpr{X: cond, Op: token.LOR, Y: t}
+				}
+			}
+			ifs := &ast.IfStmt{Cond: cond, Body: &ast.BlockStmt{List: cc.Body}}
+			if prev == nil {
+				chain = ifs
+			} else {
+				prev.Else = ifs
+			}
+			prev = ifs
+		}
+		if chain == nil {
+			return c.body(tail, ret, at)
+		}
+		return c.body(append([]ast.Stmt{chain}, tail...), ret, at)
+	}
 	c.fail(stmts[0], "unsupported statement %T", stmts[0])
 	return ""
 }
